@@ -137,13 +137,25 @@ class AbsEval:
                 except Exception:
                     return None
             if isinstance(e.op, ast.Add):
-                for x, y in ((a, b), (b, a)):
-                    if isinstance(x, Kind) and x.k in ('str', 'bytes', 'list'):
-                        return Kind(x.k)
-                    if isinstance(x, Const) and isinstance(x.v, (str, bytes, list)) \
-                            and y is None:
-                        return Kind(kind_of_const(x.v),
-                                    **({'empty': False, 'truthy': True} if x.v else {}))
+                def seq(v):
+                    if isinstance(v, Const) and isinstance(v.v, (str, bytes, list)):
+                        return kind_of_const(v.v), (len(v.v) == 0)
+                    if isinstance(v, Kind) and v.k in ('str', 'bytes', 'list'):
+                        return v.k, v.attrs.get('empty')
+                    return None, None
+                ka, ea = seq(a)
+                kb, eb = seq(b)
+                k = ka or kb
+                if k is not None and (ka is None or kb is None or ka == kb):
+                    if ea is False or eb is False:
+                        return Kind(k, empty=False, truthy=True)
+                    if ea is True and eb is True:
+                        return Kind(k, empty=True, truthy=False)
+                    if ea is True and isinstance(b, Kind):
+                        return b
+                    if eb is True and isinstance(a, Kind):
+                        return a
+                    return Kind(k)
             return None
         if isinstance(e, ast.Subscript):
             v = self.eval(e.value, _depth + 1)
